@@ -111,11 +111,17 @@ def real_cases(task):
         [tuple(rng.sample(errors, len(errors))) for _ in range(24)]
     out = []
     # errors raised below a propertyNames keyword carry the property NAME as their instance, filed at the object's own path
-    pn_paths = [tag_path(list(e.path)) for e in errors if isinstance(e.instance, str) and "propertyNames" in list(e.absolute_schema_path)]
-    pn = bool(pn_paths)
+    def is_pn(e):
+        return isinstance(e.instance, str) and "propertyNames" in list(e.absolute_schema_path)
+    pn = any(is_pn(e) for e in errors)
     for n, perm in enumerate(perms[:24]):
-        rec = project(js, list(perm), instance=I, probe_index=(n == 0))
+        rec = project(js, list(perm), instance=I, probe_index=(n < 6))
         rec["id"] = i * 100 + n
+        # the paths at which the LAST error to arrive was a property-name error (the node keeps the last instance it saw)
+        last = {}
+        for e in perm:
+            last[tuple(e.path)] = is_pn(e)
+        pn_paths = [tag_path(list(p)) for p, flag in last.items() if flag]
         out.append((rec, {"draft": d, "schema": S, "instance": I, "errors_in_arrival_order": [(list(e.path), e.validator) for e in perm],
                           "has_property_name_error": pn, "property_name_error_paths": pn_paths}))
     return out
